@@ -209,6 +209,8 @@ func (l *Lab) DKGAlphabet() []Input {
 		mk(dpf.EventDKGMasterKeyConfirmationReceived, pid, "keyB-polyA", 4, false, world.MustJSON(requests.DKGProposalMasterKeyConfirmationRequest{ParticipantId: pid, MasterKey: []byte("group-key-B"), PubPolyBz: []byte("poly-A"), CreatedAt: world.T0}))
 		for ph, ev := range []fsm.Event{dpf.EventDKGCommitConfirmationError, dpf.EventDKGDealConfirmationError, dpf.EventDKGResponseConfirmationError, dpf.EventDKGMasterKeyConfirmationError} {
 			mk(ev, pid, "valid", ph+1, true, world.MustJSON(requests.DKGProposalConfirmationErrorRequest{ParticipantId: pid, Error: ferr, CreatedAt: world.T0}))
+			// the same report stamped after the deadline: a reported error AND an expired deadline
+			mk(ev, pid, "late", ph+1, true, world.MustJSON(requests.DKGProposalConfirmationErrorRequest{ParticipantId: pid, Error: ferr, CreatedAt: Late}))
 		}
 		// signing events as out-of-phase probes
 		mk(sif.EventSigningPartialSignReceived, pid, "probe", -1, false, world.MustJSON(requests.SigningProposalBatchPartialSignRequests{BatchID: "b", ParticipantId: pid, PartialSigns: []requests.PartialSign{{MessageID: "m", Sign: []byte("s")}}, CreatedAt: world.T0}))
